@@ -354,6 +354,8 @@ impl FileSpec {
 
     // returns an ordered list of all files in the right directory that start with the fixed_name_part
     pub(crate) fn read_dir_related_files(&self) -> Vec<PathBuf> {
+        #[cfg(feature = "verif_hooks")]
+        crate::verif_hooks::point("read_dir", Some(&self.directory), None).ok();
         let fixed_name_part = self.fixed_name_part();
         let mut log_files = std::fs::read_dir(&self.directory)
             .unwrap(/*ignore errors from reading the directory*/)
